@@ -457,7 +457,10 @@ def replay_one(mod, prop, path):
         path = os.path.join(VERIF_DIR, path)
     rj = json.load(open(path))
     res = mod.execute(rj["trace"])
-    if res.sample is not None:
+    if isinstance(res.sample, list):
+        for t in res.sample[-60:]:
+            print("  " + json.dumps(t, default=str)[:230])
+    elif res.sample is not None:
         print(json.dumps(res.sample, indent=1, default=str)[:6000])
     if res.violations:
         for v in res.violations:
